@@ -37,10 +37,22 @@ func c15Campaign(tier string, seed int64, only int, race bool) *campaign {
 		if race {
 			return []pipe.Variant{pipe.VGoO, pipe.VGoOU}
 		}
+		if i%5 == 2 {
+			return pipe.GoVariants // accumulating actions (see Make): Go only
+		}
 		return pipe.AllVariants
 	}
 	cp.Make = func(r *rand.Rand, i int) *spec.Grammar {
 		g := mixedGrammar(r, i+3)
+		if i%5 == 2 {
+			// every second action adds to $$ instead of overwriting it: each reduction must start
+			// with a fresh $$, also on a re-initialised context and after a rejected input
+			for k := range g.Rules {
+				if k%2 == 0 {
+					g.Rules[k].Act.Accum = true
+				}
+			}
+		}
 		if i%3 == 1 {
 			// nonterminals without a value tag (every second one, never the start symbol): their
 			// reductions carry no value, which is where generated code is tempted to share storage
